@@ -103,6 +103,7 @@ def prof_C01(d, rng):
         d["p_undefined"] = 0.0
         d["hooks"] = [h for h in W.HOOK_NAMES if rng.random() < 0.7]
         d["p_hook_fail"] = rng.choice([0.0, 0.03])
+        d["hook_interrupts"] = rng.random() < 0.3     # "... or the run is aborted"
         d["cleanups"] = True
         d["p_cleanup_fail"] = rng.choice([0.0, 0.1])
 
@@ -701,6 +702,7 @@ def prof_C18(d, rng):
     if rng.random() < 0.6 and not d["hooks"]:
         d["hooks"] = [h for h in W.HOOK_NAMES if rng.random() < 0.6]
     d["p_hook_fail"] = rng.choice([0.0, 0.05, 0.1])
+    d["hook_interrupts"] = rng.random() < 0.3
     d["nested"] = rng.random() < 0.3
     d["log_level_changes"] = rng.random() < 0.3
     d["pre_handler"] = rng.random() < 0.3
